@@ -349,8 +349,8 @@ def oracle(s, obs):
         if got != own:
             return ("oracle:identity-mixed", "request %d (user %s) was forwarded and logged as %s" % (i + 1, own, got))
         if not r["p"].startswith("ok"):
-            race = any(reqs[j]["kind"] == "ok" and reqs[j]["u"].lower() == r["u"].lower() and reqs[j]["p"] != r["p"]
-                       and reqs[j]["p"].startswith("ok") for j in arrived)
+            # the known defect needs another request naming the same user with a password the helper accepts
+            race = any(q["kind"] == "ok" and q["u"].lower() == r["u"].lower() and q["p"].startswith("ok") for q in reqs)
             return ("oracle:rejected-credentials-forwarded" + (":shared-user-race" if race else ""),
                     "request %d presented %s:%s, which the helper rejects, and was forwarded (logged as %s)"
                     % (i + 1, own, r["p"], got))
